@@ -7,6 +7,6 @@ Extraction Language OCaml.
 
 Extraction "../model_driver/model.ml"
   step init_sys run run_cov init_state mget
-  ek_uint ek_h256 ek_pair ek_var ek_nl vecmap_impl btmap_impl maxmap_impl
+  ek_uint ek_h256 ek_pair ek_quad ek_var ek_nl vecmap_impl btmap_impl maxmap_impl
   iface_len iface_get has_pending to_vec shape idof nodes elems
   urange umax_index usize_max le_num num_le zh coll_is_ssz_fixed coll_ssz_fixed_len hlist.
